@@ -68,6 +68,9 @@ def run_round(res, case, attempt=0):
             time.sleep(delay)
             peer = tcpnet.RefPeer.connect(port, timeout=20.0)
             try:
+                # a small receive buffer: the sender really has to wait for this reader
+                import socket as _socket
+                peer.sock.setsockopt(_socket.SOL_SOCKET, _socket.SO_RCVBUF, 65536)
                 peer.associate([(1, svc.FIND.encode(), (b'1.2.840.10008.1.2',))], called=b'SERVER',
                                calling=b'SLOW%d' % t, max_len=65536)
                 q = pydicom.Dataset()
@@ -76,7 +79,10 @@ def run_round(res, case, attempt=0):
                 peer.send_dimse(1, {R.TAG_AFFECTED_SOP_CLASS: svc.FIND, R.TAG_COMMAND_FIELD: 0x0020,
                                     R.TAG_MESSAGE_ID: 5, R.TAG_PRIORITY: 0}, dsutils.encode(q, True, True))
                 while True:
-                    if out['received'] in (0, 8, 20, 34):
+                    if out['received'] in (0, 8, 20, 34) or (t == 0 and out['received'] == 27):
+                        # (reader 0 once pauses longer than the serving entity's own time-out)
+                        if t == 0 and out['received'] == 27:
+                            time.sleep(3.0)
                         time.sleep(pause)              # busy with something else, again and again
                     item = peer.recv_dimse()
                     if isinstance(item, dict):
@@ -86,7 +92,10 @@ def run_round(res, case, attempt=0):
                     if item[1].get(R.TAG_STATUS) not in (0xFF00, 0xFF01):
                         out['final'] = item[1].get(R.TAG_STATUS)
                         break
-                peer.release()
+                try:
+                    peer.release()
+                except (tcpnet.PeerClosed, OSError):
+                    pass        # everything asked for has arrived; how the idle association ends is not judged here
             finally:
                 peer.close()
         except Exception as exc:
@@ -97,7 +106,7 @@ def run_round(res, case, attempt=0):
                                                     stats=inj):
         server = Server('SERVER', 0, max_pdu_length=65536)
         server.net = net
-        server.timeout = 30
+        server.timeout = 3.5        # how long the entity waits for a *request*; sending has no deadline
         server.add_scp(sopclass.verification_scp).add_scp(sopclass.qr_find_scp)
         with tcpnet.serving(server):
             threads = [threading.Thread(target=neighbour, args=(server.port, t), daemon=True) for t in range(3)]
